@@ -216,11 +216,13 @@ struct TapRec {
   int start_tid = -1, sig_tid = -1;
   std::thread::id sig_thread{};
   bool started = false, completed = false, destroyed = false;
+  bool aborted = false;  // the connect of this instance threw (from a nested connect): the operation never existed
 };
 TapRec* tap_new(int node);
 void maybe_throw_on_connect(int node);  // plan-level fault: the k-th connect of a node throws
 void tap_signal(TapRec* t, int ch, long payload);
 void tap_signal_exit(TapRec* t);
+void tap_aborted(TapRec* t, std::exception_ptr e);  // records that connecting this instance threw `e`
 
 template <class R>
 struct any_op;
@@ -294,9 +296,7 @@ struct any_op final : rcv_iface {
     } catch (...) {
       // connecting the subtree threw: this operation state never comes into existence
       tb.release();  // (a constructor below may already have asked for the stop token)
-      usim::np_scope np;
-      tap->destroyed = true;
-      tap->destroy_seq = seq();
+      tap_aborted(tap, std::current_exception());
       throw;
     }
   }
